@@ -623,26 +623,7 @@ def emit : Node → St → R St
     s.emitLabelParameterList hasPs ps
   | .assign lhs rhs, s => do
     let s ← emit rhs s
-    -- EmitAssignmentStatement
-    match lhs with
-    | .field idx ev _ wr l =>
-      let direct : R Bool := match l with
-        | .listener _ => if wr = 2 then .error .readOnly else .ok (wr = 1)
-        | _ => .ok true
-      let viaField ← direct
-      let s ← if viaField then do
-          let s ← emit l s
-          s.emitOp OP_LOAD_FIELD_VAR
-        else match l with
-          | .listener b => s.emitOp (OP_LOAD_GAME_VAR + b)
-          | _ => .ok s
-      let (i, s) := s.addString idx
-      s.write (le 4 i ++ le 4 ev)
-    | .idx a i => do
-      let s ← emitRef a s
-      let s ← emit i s
-      s.emitOp OP_LOAD_ARRAY_VAR
-    | _ => .error .badLValue
+    emitAssign lhs s
   | .if_ c t, s => do
     let s ← emit c s
     let s ← s.varToBool
@@ -867,6 +848,26 @@ def emitList : Nodes → St → R St
   | .cons x xs, s => do
     let s ← emit x s
     emitList xs s
+/-- `EmitAssignmentStatement(lhs)` -/
+def emitAssign : Node → St → R St
+  | .field idx ev _ wr l, s => do
+    let direct : R Bool := match l with
+      | .listener _ => if wr = 2 then .error .readOnly else .ok (wr = 1)
+      | _ => .ok true
+    let viaField ← direct
+    let s ← if viaField then do
+        let s ← emit l s
+        s.emitOp OP_LOAD_FIELD_VAR
+      else match l with
+        | .listener b => s.emitOp (OP_LOAD_GAME_VAR + b)
+        | _ => .ok s
+    let (i, s) := s.addString idx
+    s.write (le 4 i ++ le 4 ev)
+  | .idx a i, s => do
+    let s ← emitRef a s
+    let s ← emit i s
+    s.emitOp OP_LOAD_ARRAY_VAR
+  | _, _ => .error .badLValue
 /-- `EmitRef` -/
 def emitRef : Node → St → R St
   | .field idx ev _ _ l, s => do
